@@ -132,6 +132,12 @@ func C20(tier string) int {
 			addQ(pred+"sort by "+strings.Join(parts, ", ")+" skip 1 limit 2", syms)
 		}
 	}
+	// sort fields of sub-queries are referenced symbols too
+	addQ(`count(from reports where s = "a" sort by i) > 0`, []string{"reports", "s", "i"})
+	addQ(`isEmpty(from reports where true sort by t desc skip 1)`, []string{"reports", "t"})
+	addQ(`count(from reports where anyOf(roles) = "a" sort by f, b desc limit 1) = 0`, []string{"reports", "roles", "f", "b"})
+	addQ(`count(from reports where count(from reports where true sort by nn) > 0 sort by id, s) > 0`, []string{"reports", "nn", "s"})
+	addQ(`not isEmpty(from reports where i > 4 sort by id, f)`, []string{"reports", "i", "f"})
 	if !thorough {
 		// quick: every 3rd query of the bulk classes, all of the rare ones
 		var keep []qc
